@@ -1,4 +1,7 @@
+#[cfg(not(jgilchrist_tcheran_verif))]
 use std::sync::{Condvar, Mutex};
+#[cfg(jgilchrist_tcheran_verif)]
+use crate::verif_seam::sync::{Condvar, Mutex};
 
 /// A `LockLatch` starts as false and eventually becomes true. You can block
 /// until it becomes true.
